@@ -155,7 +155,7 @@ func ToCommandLine(wf WireFormat, resolveIds bool) (rule string, err error) {
 				break loop
 			}
 		}
-		if !extraFields {
+		if !extraFields && r.isFileWatch(path) {
 			arguments := []string{"-w", path, "-p", permission(r.values[permIdx]).String()}
 			if len(key) > 0 {
 				arguments = append(arguments, "-k", key)
@@ -325,6 +325,29 @@ func ToCommandLine(wf WireFormat, resolveIds bool) (rule string, err error) {
 	}
 
 	return strings.Join(arguments, " "), nil
+}
+
+// isFileWatch returns true if the rule is what Build creates for a file watch
+// on path, so that displaying it in the -w form does not lose anything. Such a
+// rule is appended to the exit list with the always action and consists of
+// one path or dir, the permissions and optionally the keys, in that order and
+// all with the equal operator.
+func (r *ruleData) isFileWatch(path string) bool {
+	if r.flags != exitFilter || r.action != alwaysAction {
+		return false
+	}
+	if n := len(r.fields); n < 2 || n > 3 || (n == 3 && r.fields[2] != keyField) {
+		return false
+	}
+	if (r.fields[0] != pathField && r.fields[0] != dirField) || r.fields[1] != permField || r.values[1] == 0 {
+		return false
+	}
+	for _, op := range r.fieldFlags {
+		if op != equalOperator {
+			return false
+		}
+	}
+	return filepath.IsAbs(path) && filepath.Clean(path) == path
 }
 
 func addFileWatch(data *ruleData, rule *FileWatchRule) error {
